@@ -321,6 +321,7 @@ impl RateLimiterStateInner {
 #[derive(Debug, Clone)]
 pub(crate) struct SharedRateLimiter {
     state: Arc<Mutex<RateLimiterStateInner>>,
+    timeout_duration: Duration,
 }
 
 impl SharedRateLimiter {
@@ -337,36 +338,45 @@ impl SharedRateLimiter {
                 refresh_period,
                 timeout_duration,
             ))),
+            timeout_duration,
         }
     }
 
     /// Attempts to acquire a permit.
     /// Returns Ok(duration_waited) if successful, Err if rate limited.
     pub(crate) async fn acquire(&self) -> Result<Duration, ()> {
-        let result = {
-            let mut state = self.state.lock().unwrap();
-            state.try_acquire()
-        };
+        let start = Instant::now();
+        let mut slept = false;
 
-        match result {
-            Ok(Duration::ZERO) => {
-                // Got permit immediately
-                Ok(Duration::ZERO)
-            }
-            Ok(wait_duration) => {
-                // Need to wait
-                sleep(wait_duration).await;
-
-                // Try again after waiting
+        loop {
+            let result = {
                 let mut state = self.state.lock().unwrap();
-                match state.try_acquire() {
-                    Ok(additional_wait) => Ok(wait_duration + additional_wait),
-                    Err(_) => Err(()), // Timeout exceeded
+                state.try_acquire()
+            };
+
+            match result {
+                Ok(Duration::ZERO) => {
+                    // Got a permit (immediately, or after having waited)
+                    return Ok(if slept {
+                        start.elapsed()
+                    } else {
+                        Duration::ZERO
+                    });
                 }
-            }
-            Err(_) => {
-                // Timeout would be exceeded
-                Err(())
+                Ok(wait_duration) => {
+                    // No permit yet: a non-zero answer only says when to try again.
+                    // Another waiter may have taken the permit we slept for, so keep
+                    // waiting as long as the total stays within the timeout.
+                    if start.elapsed() + wait_duration > self.timeout_duration {
+                        return Err(());
+                    }
+                    sleep(wait_duration).await;
+                    slept = true;
+                }
+                Err(_) => {
+                    // Timeout would be exceeded
+                    return Err(());
+                }
             }
         }
     }
